@@ -518,6 +518,24 @@ where
         quotient_degree_bits <= rate_bits,
         "Having constraints of degree higher than the rate is not supported yet."
     );
+    // The packed evaluation below walks the quotient domain in steps of `P::WIDTH`. A domain that is
+    // shorter than one packed vector (a tiny trace in a SIMD build) is evaluated point by point.
+    if P::WIDTH > 1 && (degree << quotient_degree_bits) < P::WIDTH {
+        return compute_quotient_polys::<F, F, C, S, D>(
+            stark,
+            trace_commitment,
+            auxiliary_polys_commitment,
+            lookup_challenges,
+            lookups,
+            ctl_data,
+            public_inputs,
+            alphas,
+            degree_bits,
+            num_lookup_columns,
+            num_ctl_columns,
+            config,
+        );
+    }
     let step = 1 << (rate_bits - quotient_degree_bits);
     // When opening the `Z`s polys at the "next" point, need to look at the point `next_step` steps away.
     let next_step = 1 << quotient_degree_bits;
